@@ -31,6 +31,10 @@ def collect(ctx):
     n = 500 if ctx.quick else 6000
     emb, est, egen = rpcpipe.gen_embargo(ctx, sd, 3 if ctx.quick else 4, 5 if ctx.quick else 7)
     scripts = emb + s1[:n] + s2[:n] + s3[:n // 2] + s4[:n // 2]
+    # the same scripts with an answer queue of one entry: the second call pipelined on an unreturned answer waits until the queue drains
+    POLICY = {"a": "policy", "q": -1, "on": -1, "exp": -1, "n": 0, "tag": -1, "kind": "", "rel": False, "h": "", "cap": -1, "k": 1}
+    tight = [x for x in s1 if sum(1 for a in x if a["a"] == "p-call" and a["on"] >= 2) >= 2]
+    scripts += [[POLICY] + x for x in tight[:n // 3]]
     if os.environ.get("VERIF_RPC_ONLY") == "embargo":      # development aid
         scripts = emb
     if os.environ.get("VERIF_RPC_ONLY") == "wire":
